@@ -10,6 +10,7 @@ type isStandardClass interface {
 	mergeSupers() bool
 	namesSuper(name string) bool
 	slotDefMap() map[string]*SlotDef
+	allSlotsDefs() []*SlotDef
 	initArgDef(name string) *SlotDef
 	sharedInitArgDefs(name string) []*SlotDef
 	initFormMap() map[string]*SlotDef
